@@ -61,3 +61,18 @@ LEMMAS += [Lemma('listlib:nth_keys:base', [], z3.Implies(z3.And(k >= 0, k < leng
            Lemma('listlib:nth_list_set:step', [z3.Implies(z3.And(k - 1 >= 0, k - 1 < length(t)), nth(list_set(t, k - 1, x), m - 1) == z3.If(m - 1 == k - 1, x, nth(t, m - 1))), length(t) >= 0],
                  z3.Implies(z3.And(k >= 0, k < length(VL.cons(h, t))), nth(list_set(VL.cons(h, t), k, x), m) == z3.If(m == k, x, nth(VL.cons(h, t), m))), property_ids=('C04',)),
            ]
+
+# positions in association lists (values._index_of_lemmas)
+def _snd_ok(t_):
+    return True
+
+
+LEMMAS += ind('index_of_bounds', lambda L: z3.And(index_of(L, kk) >= 0, index_of(L, kk) <= length(L)), lambda L: [length(L) >= 0])
+LEMMAS += ind('index_of_present_below_length', lambda L: z3.Implies(lookup(L, kk) != V.Missing, index_of(L, kk) < length(L)), lambda L: [length(L) >= 0])
+LEMMAS += [Lemma('listlib:index_of_store_keeps_present_keys:base', [], z3.Implies(lookup(VL.nil, kk) != V.Missing, index_of(assoc_set(VL.nil, x, y), kk) == index_of(VL.nil, kk)), property_ids=('C04',)),
+           Lemma('listlib:index_of_store_keeps_present_keys:step', [z3.Implies(lookup(t, kk) != V.Missing, index_of(assoc_set(t, x, y), kk) == index_of(t, kk))],
+                 z3.Implies(lookup(VL.cons(h, t), kk) != V.Missing, index_of(assoc_set(VL.cons(h, t), x, y), kk) == index_of(VL.cons(h, t), kk)), property_ids=('C04',)),
+           Lemma('listlib:index_of_new_key_at_end:base', [], z3.Implies(index_of(VL.nil, x) == length(VL.nil), index_of(assoc_set(VL.nil, x, y), x) == length(VL.nil)), property_ids=('C04',)),
+           Lemma('listlib:index_of_new_key_at_end:step', [z3.Implies(index_of(t, x) == length(t), index_of(assoc_set(t, x, y), x) == length(t)), length(t) >= 0,
+                                                          index_of(t, x) >= 0, index_of(t, x) <= length(t)],
+                 z3.Implies(index_of(VL.cons(h, t), x) == length(VL.cons(h, t)), index_of(assoc_set(VL.cons(h, t), x, y), x) == length(VL.cons(h, t))), property_ids=('C04',))]
